@@ -136,7 +136,7 @@ PROPS = {
         "assumptions": PURE_ASSUME + ["process-level clauses (exit status 1, `n2: error:` prefix) are checked by the black-box stage when present"],
     },
     "C13": {
-        "stages": [pure(12, 240), real(6, 120), asan_pure(120), miri(1500)],
+        "stages": [pure(12, 240), real(6, 120), asan_pure(120), miri(1500), sim(8, 150)],
         "rule": "exhaustive over {a . / \\}^n for n <= 9 (quick) / 11 (thorough) and {a b . /}^n for n <= 8 / 10, then random paths of 1-60 components (UTF-8 names, .., ., empty, mixed separators) and re-spellings (inserted ./, x/../, doubled separators before the last component) which must canonicalise identically; checks: equals the independent component-list canonicaliser, idempotent, never longer, no ., empty or name/.. component left, .. only leading, same location; assert_unchecked/set_len preconditions are checked by the build profile; non-trivial = canon(p) != p",
         "must_observe": ["exhaustive_inputs", "random_inputs", "respell_pairs"],
         "assumptions": PURE_ASSUME,
